@@ -402,10 +402,11 @@ def _call(name, fn, style, given):
 
 
 def _fn(name):
+    if name == "resample":
+        from soundevent.audio import operations
+        return operations.resample
     from soundevent import audio
-    from soundevent.audio import operations
-    return {"load_clip": audio.load_clip, "load_recording": audio.load_recording,
-            "compute_spectrogram": audio.compute_spectrogram, "resample": operations.resample}[name]
+    return getattr(audio, name)
 
 
 def _spec_given(audio, inp):
